@@ -207,4 +207,49 @@ mutual
     | (_, x) :: r => tablesArr x ∧ tablesArrK r
 end
 
+/-! ### `pretty`: tables of flat objects -/
+
+/-- neither array nor object -/
+def isScalar (v : JV) : Bool := !isArr v && !isObj v
+
+/-- an object all of whose members are scalars -/
+def flatObj : JV → Bool
+  | .obj kvs => kvs.all fun kv => isScalar kv.2
+  | _ => false
+
+/-- the keys a row shows in an aligned table: the encoded keys of the members that are written -/
+def rowKeys (drop : JV → Bool) (enc : Bytes → Bytes) : JV → List Bytes
+  | .obj kvs => (kvs.filter fun kv => !drop kv.2).map fun kv => enc kv.1
+  | _ => []
+
+/-- no row of a table of objects lacks its last column: every row shows no key at all, or shows the
+greatest (byte-wise, encoded) key shown by any row -/
+def rowsComplete (drop : JV → Bool) (enc : Bytes → Bytes) (xs : List JV) : Prop :=
+  ∀ x ∈ xs, rowKeys drop enc x = [] ∨
+    ∃ k ∈ rowKeys drop enc x, ∀ y ∈ xs, ∀ k' ∈ rowKeys drop enc y, bytesLt k k' = false
+
+/-- the encoded keys of the members written are ordered like the keys themselves -/
+def keysEncOrdered (drop : JV → Bool) (enc : Bytes → Bytes) : JV → Prop
+  | .obj kvs => ∀ a ∈ kvs, ∀ b ∈ kvs, drop a.2 = false → drop b.2 = false → bytesLt a.1 b.1 = true →
+      bytesLt (enc a.1) (enc b.1) = true
+  | _ => True
+
+mutual
+  /-- every alignment table of the tree is a table of arrays without objects inside, or a table of
+  flat objects with complete rows and keys ordered like their encodings -/
+  def tablesAO (drop : JV → Bool) (enc : Bytes → Bytes) : JV → Prop
+    | .arr xs =>
+      (2 ≤ xs.length → (xs.all isArr = true → arrOnlyL xs) ∧
+        (xs.all isObj = true → (∀ x ∈ xs, flatObj x = true ∧ keysEncOrdered drop enc x) ∧ rowsComplete drop enc xs)) ∧
+      tablesAOL drop enc xs
+    | .obj kvs => tablesAOK drop enc kvs
+    | _ => True
+  def tablesAOL (drop : JV → Bool) (enc : Bytes → Bytes) : List JV → Prop
+    | [] => True
+    | x :: r => tablesAO drop enc x ∧ tablesAOL drop enc r
+  def tablesAOK (drop : JV → Bool) (enc : Bytes → Bytes) : Kvs → Prop
+    | [] => True
+    | (_, x) :: r => tablesAO drop enc x ∧ tablesAOK drop enc r
+end
+
 end OjgVerif.Writer
